@@ -36,6 +36,9 @@ Reach(d, U) ==
   IN IF new = U THEN U ELSE Reach(d, new)
 Live(d) == LET R == Reach(d, {0})
            IN { i \in 1..Len(d.cells) : d.cells[i].imp # 0 /\ d.cells[i].like = 0 /\ d.cells[i].u \in R }
+(* lattice cells may also be written LIKE n BUT ...: they need their own --lattice ranges *)
+LiveL(d) == LET R == Reach(d, {0})
+            IN { i \in 1..Len(d.cells) : d.cells[i].imp # 0 /\ d.cells[i].u \in R }
 UsedSurfNums(d) == UNION { { Abs(d.cells[i].leaves[j][1]) : j \in 1..Len(d.cells[i].leaves) } : i \in Live(d) }
 UsedSurfs(d) == { i \in 1..Len(d.surfs) : d.surfs[i].n \in UsedSurfNums(d) }
 SurfIndex(d, n) == IF \E i \in 1..Len(d.surfs) : d.surfs[i].n = n
@@ -92,7 +95,7 @@ LatticeSites(d) ==
           ELSE IF d.cells[c].nranges > 0
           THEN { Site("fill_length", "lat", v, c, 0) : v \in {"one_less", "one_more"} }
           ELSE {}
-        : c \in Live(d) }
+        : c \in LiveL(d) }
 (* IMP cards of unequal length *)
 ImpSites(d) ==
   (IF Len(d.impcards) >= 2 THEN { Site("imp_length", "data", v, 2, 0) : v \in {"second_shorter", "second_longer"} } ELSE {})
